@@ -1,7 +1,7 @@
 """Shared helpers: the REAL pymoca.ast node classes instantiated inside the symbolic executor."""
 from pyvc.values import Ext, NoOp, Unsupported, VClass, VDict, VList, VObj, stub
 
-from .api_common import CollectionsStub, ModuleStub
+from .api_common import CollectionsStub, ModuleStub, itertools_module
 
 
 def base_modules(eng):
@@ -14,7 +14,7 @@ def base_modules(eng):
         "sys": ModuleStub("sys", {"maxsize": 2 ** 63 - 1}), "os": ModuleStub("os", {"path": ModuleStub("os.path", {
             "dirname": stub(lambda eng, p: "."), "realpath": stub(lambda eng, p: ".")})}),
         "numpy": ModuleStub("numpy", {}), "abc": ModuleStub("abc", {"ABC": VClass("ABC"), "abstractmethod": None}),
-        "itertools": ModuleStub("itertools", {}), "re": ModuleStub("re", {}),
+        "itertools": itertools_module(), "re": ModuleStub("re", {}),
     })
     eng.call_contracts.clear()
     eng.loop_specs.clear()
